@@ -157,6 +157,15 @@ def variants_for(prop: str, project: Project) -> list[Variant]:
     except ModuleNotFoundError:
         return []
     out = []
+    # generic twin for every property: every module re-laid-out (ast.unparse round trip: comments dropped, lines moved)
+    overlay = {}
+    for m in project.modules.values():
+        if m.in_scope:
+            try:
+                overlay[m.relpath] = ast.unparse(ast.parse(m.source)) + "\n"
+            except Exception:  # pragma: no cover
+                pass
+    out.append(Variant(f"{prop}-twin-relayout", prop, "twin", "whole package re-laid-out with ast.unparse (formatting, comments and line numbers change)", overlay))
     for v in mod.generate(project):
         bad = [p for p, t in v.overlay.items() if p.endswith(".py") and not parses(t)]
         if bad:
